@@ -259,7 +259,12 @@ func (p *Proxy) handleLoop(conn net.Conn) {
 		deadline := time.Now().Add(p.timeout)
 		conn.SetDeadline(deadline)
 
-		if err := p.handle(ctx, conn, brw); isCloseable(err) {
+		// A MITM'd CONNECT moves the session onto the TLS connection; keep
+		// handling later requests on the connection the session is on now, so
+		// that each of them gets the TLS state (and traffic shaping context) of
+		// the connection it was actually read from.
+		cur, curbrw := s.connection()
+		if err := p.handle(ctx, cur, curbrw); isCloseable(err) {
 			log.Debugf("martian: closing connection: %v", conn.RemoteAddr())
 			return
 		}
